@@ -15,7 +15,9 @@ Property theorems only.  Vocabulary (definitions in `Paths/Model.lean`):
   tuple); `inject p0 fs` applies them; `app w cfg T p0 fs` says that `fs` is independent and applicable to
   `p0` at type `T` (no two faults at one place, none below a replaced value or a deleted key, a rejecting
   value really is rejected — there is none for `str`/`bool`/`Any` —, class positions on a `Converter` with the
-  dict strategy: `BaseConverter` and the tuple strategy raise no class-level groups).
+  dict strategy: `BaseConverter` and the tuple strategy raise no class-level groups).  A class-union position
+  takes a `badLeaf` fault itself (the union hook raises a bare exception); faults *below* a union position are
+  outside the fault model (`app` is false for them): an edit there may change which member is chosen.
 * `paths e` / `leaves e`: the note paths from the root to the leaf errors / their number; `shapeOK w T e`:
   class-level groups exactly at class / TypedDict positions, iterable-level groups exactly at collection /
   tuple / mapping positions, every child noted with an attribute name of that class / an index / a key (the only
@@ -67,10 +69,11 @@ constructors), and injecting the empty fault list changes nothing. -/
 theorem C05_no_spurious (w : World) (cfg : Cfg) (T : Ty) (x : Obj)
     (hgen : cfg.gen = true) (hforbid : cfg.forbid = false)
     (hw : w.WF) (hwe : w.WFE) (hws : w.supG true) (hs : T.supG true = true)
+    (hwu : w.unionsOK cfg.tupleStrat) (hu : T.unionsOK w cfg.tupleStrat = true)
     (hc : conf w T x = true) (hv : x.valid = true) :
     stD w cfg T (inject (un w cfg T x) []) = .ok x := by
   rw [inject_nil]
-  have key := roundtrip w cfg cfg hgen rfl hforbid hw hwe (by rw [hgen]; exact hws) T x (by rw [hgen]; exact hs) hc hv
+  have key := roundtrip w cfg cfg hgen rfl hforbid hw hwe (by rw [hgen]; exact hws) hwu T x (by rw [hgen]; exact hs) hu hc hv
   have ma := modes_agree w cfg T (un w cfg T x)
   rw [key] at ma
   cases hr : stD w cfg T (un w cfg T x) with
@@ -81,11 +84,12 @@ theorem C05_no_spurious (w : World) (cfg : Cfg) (T : Ty) (x : Obj)
 theorem C05_exact_paths_conforming (w : World) (cfg : Cfg) (T : Ty) (x : Obj) (fs : List Fault)
     (hgen : cfg.gen = true) (hforbid : cfg.forbid = false)
     (hw : w.WF) (hwe : w.WFE) (hws : w.supG true) (hs : T.supG true = true)
+    (hwu : w.unionsOK cfg.tupleStrat) (hu : T.unionsOK w cfg.tupleStrat = true)
     (hc : conf w T x = true) (hv : x.valid = true)
     (happ : app w cfg T (un w cfg T x) fs = true) (hne : fs ≠ []) :
     ∃ e, stD w cfg T (inject (un w cfg T x) fs) = .error e ∧ shapeOK w T e = true ∧ leaves e = fs.length ∧
       (paths e).Perm (fs.map Fault.reportPath) := by
-  have h0 := C05_no_spurious w cfg T x hgen hforbid hw hwe hws hs hc hv
+  have h0 := C05_no_spurious w cfg T x hgen hforbid hw hwe hws hs hwu hu hc hv
   rw [inject_nil] at h0
   exact C05_exact_paths w hw cfg T (un w cfg T x) fs ⟨x, h0⟩ happ hne
 
